@@ -515,13 +515,13 @@ class MLIRLexer(Lexer[MLIRTokenKind]):
             # If there are no escape sequences, directly return a STRING_LIT
             return Token(MLIRTokenKind.STRING_LIT, lit)
 
-        bytes_contents = lit.bytes_contents
+        try:
+            lit.bytes_contents.decode()
+        except UnicodeDecodeError:
+            return Token(MLIRTokenKind.BYTES_LIT, lit)
 
-        if bytes_contents.isascii():
-            # If the bytes contents are ASCII, return a STRING_LIT
-            return Token(MLIRTokenKind.STRING_LIT, lit)
-
-        return Token(MLIRTokenKind.BYTES_LIT, lit)
+        # The payload is valid UTF-8: a STRING_LIT
+        return Token(MLIRTokenKind.STRING_LIT, lit)
 
     _hexdigits_star_regex = re.compile(r"[0-9a-fA-F]*")
     _digits_star_regex = re.compile(r"[0-9]*")
